@@ -214,8 +214,9 @@ def decode_typed(tv):
 @st.composite
 def operand(draw, d, classes=None, max_len=None, min_len=0, zero_prob=0.12):
     """{"cls", "keys", "vals", "tvals"}: Fraction values encoded as strings, plus typed values for the 'typed' mode."""
+    from . import values as V
     cls, ks = draw(key_tuples(d, classes, max_len, min_len))
-    return {"cls": cls, "keys": ks, "vals": draw(frac_values(len(ks), zero_prob)), "tvals": draw(typed_values(len(ks)))}
+    return {"cls": cls, "keys": ks, "vals": draw(frac_values(len(ks), zero_prob)), "tvals": draw(V.typed(len(ks)))}
 
 
 def is_canonical(keys):
